@@ -1,4 +1,5 @@
 import WhVerif.Lemmas.C20
+import WhVerif.Lemmas.C20Files
 /-!
 # C20 — auxiliary reports cover the whole run and agree with the phased VCF
 
@@ -236,5 +237,270 @@ example : (writeRecord exCfg none (exRec 20)).changes = [⟨"A", 20, "A", ["C"],
 example : (writeRecord exCfg none (exRec 10)).changes = [] := by decide
 example : clookup (writeRecord exCfg none (exRec 10)).record.calls "A"
     = some ⟨some [some 0, some 1], true, [("DP", .int 7), ("PS", .int 11)]⟩ := by decide
+
+open WhVerif.Lemmas.C20Files
+
+
+/-! ## file level: header, flags, pre-existing content, processing order -/
+
+/-- **files_cover_run**: whatever the three paths held before the run, after it each *requested* file consists of its
+header line, exactly once and first, followed by the lines of every processed chromosome / (chromosome, family) in
+processing order: the read list always (it is opened before the first chromosome); the changed-genotype list once a
+chromosome has been processed, the recombination list once a (chromosome, family) has been processed — or always
+after `fixes/F80.patch` (`createAtStart`). -/
+theorem files_cover_run (o : Opts) (fx : Fix) (pre : Pre) (chroms : List ChromF)
+    (hm : ∀ f ∈ allFams chroms, f.ReadsOfMembers) :
+    (o.readList = true → (runF o fx pre chroms).read =
+        some (readHeader :: (allFams chroms).flatMap (fun f => (readListRows f.inst).map renderReadRow))) ∧
+    (o.gtList = true → (fx.createAtStart = true ∨ selectedF chroms ≠ []) → (runF o fx pre chroms).gt =
+        some (gtHeader :: (selectedF chroms).flatMap (fun c => c.gtChanges.map (renderGtRow c.name)))) ∧
+    (o.recList = true → (fx.createAtStart = true ∨ allFams chroms ≠ []) → (runF o fx pre chroms).reco =
+        some (recHeader :: (allFams chroms).flatMap (fun f => (recombRows f.inst).map renderRecRow))) := by
+  obtain ⟨h1, h2, h3⟩ := chromFold o chroms (initF o fx pre)
+  refine ⟨fun hr => ?_, fun hg hc => ?_, fun hr hc => ?_⟩
+  · unfold runF
+    rw [h3, readLinesRun_eq chroms hm]
+    simp [hr, initF]
+  · have := congrArg Prod.fst h1
+    simp only at this
+    unfold runF
+    rw [this, gtFold_closed o hg]
+    by_cases hcs : fx.createAtStart = true
+    · by_cases hsel : selectedF chroms = []
+      · simp [hsel, initF, hg, hcs]
+      · simp [hsel, initF, hg, hcs] <;> rfl
+    · have hsel : selectedF chroms ≠ [] := by
+        rcases hc with h | h
+        · exact absurd h hcs
+        · exact h
+      have hcs' : fx.createAtStart = false := by simpa using hcs
+      simp [hsel, initF, hg, hcs'] <;> rfl
+  · have := congrArg Prod.fst h2
+    simp only at this
+    unfold runF
+    rw [this, recFold_closed o hr]
+    by_cases hcs : fx.createAtStart = true
+    · by_cases hsel : allFams chroms = []
+      · simp [hsel, initF, hr, hcs]
+      · simp [hsel, initF, hr, hcs] <;> rfl
+    · have hsel : allFams chroms ≠ [] := by
+        rcases hc with h | h
+        · exact absurd h hcs
+        · exact h
+      have hcs' : fx.createAtStart = false := by simpa using hcs
+      simp [hsel, initF, hr, hcs'] <;> rfl
+
+/-- **files_unrequested_untouched**: a list that was not requested is left exactly as it was (no file appears) -/
+theorem files_unrequested_untouched (o : Opts) (fx : Fix) (pre : Pre) (chroms : List ChromF) :
+    (o.readList = false → (runF o fx pre chroms).read = pre.read) ∧
+    (o.gtList = false → (runF o fx pre chroms).gt = pre.gt) ∧
+    (o.recList = false → (runF o fx pre chroms).reco = pre.reco) := by
+  obtain ⟨h1, h2, h3⟩ := chromFold o chroms (initF o fx pre)
+  refine ⟨fun hr => ?_, fun hg => ?_, fun hr => ?_⟩
+  · unfold runF; rw [h3]; simp [hr, initF]
+  · have := congrArg Prod.fst h1
+    simp only at this
+    unfold runF; rw [this, gtFold_off o hg]; simp [initF, hg]
+  · have := congrArg Prod.fst h2
+    simp only at this
+    unfold runF; rw [this, recFold_off o hr]; simp [initF, hr]
+
+/-- **F80 on the code as it is**: when the run processes no chromosome (every chromosome of the VCF is deselected by
+`--chromosome`, or the VCF has no records) the requested changed-genotype and recombination lists are never opened:
+they keep whatever the paths held before — a missing file stays missing, an old file keeps its rows. -/
+theorem f80_lists_stale_when_nothing_processed (o : Opts) (pre : Pre) (chroms : List ChromF)
+    (hn : selectedF chroms = []) :
+    (runF o ⟨false⟩ pre chroms).gt = pre.gt ∧ (runF o ⟨false⟩ pre chroms).reco = pre.reco := by
+  obtain ⟨h1, h2, _⟩ := chromFold o chroms (initF o ⟨false⟩ pre)
+  have hall : allFams chroms = [] := by simp [allFams, hn]
+  have a := congrArg Prod.fst h1
+  have b := congrArg Prod.fst h2
+  simp only [hn, hall, List.foldl_nil] at a b
+  unfold runF
+  exact ⟨by rw [a]; simp [initF], by rw [b]; simp [initF]⟩
+
+/-- … and after `fixes/F80.patch` the requested lists then hold just their header -/
+theorem f80_repaired_header_only (o : Opts) (pre : Pre) (chroms : List ChromF) (hn : selectedF chroms = []) :
+    (o.gtList = true → (runF o ⟨true⟩ pre chroms).gt = some [gtHeader]) ∧
+    (o.recList = true → (runF o ⟨true⟩ pre chroms).reco = some [recHeader]) := by
+  have hall : allFams chroms = [] := by simp [allFams, hn]
+  have hm : ∀ f ∈ allFams chroms, f.ReadsOfMembers := by rw [hall]; intro f hf; cases hf
+  obtain ⟨_, h2, h3⟩ := files_cover_run o ⟨true⟩ pre chroms hm
+  exact ⟨fun hg => by rw [h2 hg (Or.inl rfl), hn]; rfl, fun hr => by rw [h3 hr (Or.inl rfl), hall]; rfl⟩
+
+/-- **readlist_uses_own_family_components**: the dict `components` that `ReadList.write` consults is filled family by
+family and reset at every chromosome; for a read of one of the family's members the lookup yields the components
+of *this* family (so the row is the one `readRow` computes from the family's `overall_components`) — whatever earlier
+families of the chromosome left in the dict. -/
+theorem readlist_uses_own_family_components (sc : SampleComps) (f : FamRun) (h : f.ReadsOfMembers) :
+    readListRowsS (scAssign sc f.members f.inst.comps) f.inst = readListRows f.inst :=
+  readListRowsS_eq sc f h
+
+
+
+/-- **families_partition_samples**: every sample to be phased is a member of exactly one family of `setup_families`;
+a family lists its members in sample order and is never empty. -/
+theorem families_partition_samples (samples : List String) (trios : List Trio) :
+    (∀ s ∈ samples, ∃ F ∈ setupFamilies samples trios, s ∈ F.members ∧
+        ∀ F' ∈ setupFamilies samples trios, s ∈ F'.members → F' = F) ∧
+    (∀ F ∈ setupFamilies samples trios, F.members.Sublist samples ∧ F.members ≠ []) := by
+  constructor
+  · intro s hs
+    let cls := finalClasses samples trios
+    let F : Family := ⟨repOf cls s, samples.filter (fun x => repOf cls x == repOf cls s),
+      trios.filter (fun t => repOf cls t.child == repOf cls s)⟩
+    have hF : F ∈ setupFamilies samples trios := by
+      rw [mem_setupFamilies]
+      refine ⟨?_, rfl, rfl⟩
+      unfold repsOf
+      rw [mem_sortStr, mem_dedupStr]
+      exact List.mem_map.mpr ⟨s, hs, rfl⟩
+    refine ⟨F, hF, List.mem_filter.mpr ⟨hs, by simp⟩, ?_⟩
+    intro F' hF' hs'
+    obtain ⟨_, hm, ht⟩ := (mem_setupFamilies samples trios F').mp hF'
+    rw [hm] at hs'
+    have hrep : repOf cls s = F'.rep := by simpa using (List.mem_filter.mp hs').2
+    cases F'
+    simp only at hm ht hrep
+    subst hrep
+    simp [F, hm, ht, cls]
+  · intro F hF
+    obtain ⟨hr, hm, _⟩ := (mem_setupFamilies samples trios F).mp hF
+    rw [hm]
+    refine ⟨List.filter_sublist, ?_⟩
+    unfold repsOf at hr
+    rw [mem_sortStr, mem_dedupStr] at hr
+    obtain ⟨s, hs, hsr⟩ := List.mem_map.mp hr
+    intro hnil
+    have : s ∈ samples.filter (fun x => repOf (finalClasses samples trios) x == F.rep) :=
+      List.mem_filter.mpr ⟨hs, by simp [hsr]⟩
+    rw [hnil] at this
+    cases this
+
+/-- **families_processed_in_sorted_order**: `sorted(families.items())` — the representatives (the smallest member
+name of each family) are strictly increasing along the processing order; in particular no family is processed twice. -/
+theorem families_processed_in_sorted_order (samples : List String) (trios : List Trio) :
+    ((setupFamilies samples trios).map (·.rep)).Pairwise (· < ·) := by
+  rw [setupFamilies_reps]
+  exact reps_strict samples trios
+
+/-- **trios_follow_child**: every kept trio is handled in exactly one family — the one its child is a member of — and a
+family's trios (hence the children of the recombination list) keep the order of the PED file. -/
+theorem trios_follow_child (samples : List String) (trios : List Trio) :
+    (∀ t ∈ trios, t.child ∈ samples → ∃ F ∈ setupFamilies samples trios, t ∈ F.trios ∧ t.child ∈ F.members ∧
+        ∀ F' ∈ setupFamilies samples trios, t ∈ F'.trios → F' = F) ∧
+    (∀ F ∈ setupFamilies samples trios, F.trios.Sublist trios) := by
+  constructor
+  · intro t ht hc
+    obtain ⟨⟨F, hF, hmem, huniq⟩, _⟩ :=
+      (⟨(families_partition_samples samples trios).1 t.child hc, trivial⟩ : _ ∧ True)
+    obtain ⟨_, hm, htr⟩ := (mem_setupFamilies samples trios F).mp hF
+    have hrep : repOf (finalClasses samples trios) t.child = F.rep := by
+      rw [hm] at hmem
+      simpa using (List.mem_filter.mp hmem).2
+    refine ⟨F, hF, ?_, hmem, ?_⟩
+    · rw [htr]; exact List.mem_filter.mpr ⟨ht, by simp [hrep]⟩
+    · intro F' hF' ht'
+      obtain ⟨_, hm', htr'⟩ := (mem_setupFamilies samples trios F').mp hF'
+      apply huniq F' hF'
+      rw [htr'] at ht'
+      have : repOf (finalClasses samples trios) t.child = F'.rep := by simpa using (List.mem_filter.mp ht').2
+      rw [hm']
+      exact List.mem_filter.mpr ⟨hc, by simp [this]⟩
+  · intro F hF
+    obtain ⟨_, _, htr⟩ := (mem_setupFamilies samples trios F).mp hF
+    rw [htr]
+    exact List.filter_sublist
+
+/-- **trio_members_share_family**: the union–find of `setup_families` (merge father–child and mother–child, the
+minimum as representative) puts the three individuals of every kept trio into one family — the family that handles the
+trio: father, mother and child are members of it (as far as they are samples to be phased). -/
+theorem trio_members_share_family (samples : List String) (trios : List Trio) (t : Trio) (ht : t ∈ trios)
+    (F : Family) (hF : F ∈ setupFamilies samples trios) (htF : t ∈ F.trios) :
+    (t.father ∈ samples → t.father ∈ F.members) ∧ (t.mother ∈ samples → t.mother ∈ F.members) ∧
+    (t.child ∈ samples → t.child ∈ F.members) := by
+  obtain ⟨_, hm, htr⟩ := (mem_setupFamilies samples trios F).mp hF
+  obtain ⟨hd, hj⟩ := finalClasses_spec samples trios
+  obtain ⟨hf, hmo⟩ := hj t ht
+  rw [htr] at htF
+  have hc : repOf (finalClasses samples trios) t.child = F.rep := by simpa using (List.mem_filter.mp htF).2
+  have e1 := repOf_eq_of_mem _ hd t.father t.child hf
+  have e2 := repOf_eq_of_mem _ hd t.mother t.child hmo
+  rw [hm]
+  refine ⟨fun h => List.mem_filter.mpr ⟨h, by simp [← e1, hc]⟩, fun h => List.mem_filter.mpr ⟨h, by simp [← e2, hc]⟩,
+    fun h => List.mem_filter.mpr ⟨h, by simp [hc]⟩⟩
+
+/-- a quartet (two PED lines, second child first in sample order) and an unrelated sample: two families, processed in
+the order of their smallest names; the children keep the PED order -/
+example : setupFamilies ["S0", "Z0", "M0", "D0", "F0"] [⟨"F0", "M0", "Z0"⟩, ⟨"F0", "M0", "D0"⟩] =
+    [⟨"D0", ["Z0", "M0", "D0", "F0"], [⟨"F0", "M0", "Z0"⟩, ⟨"F0", "M0", "D0"⟩]⟩, ⟨"S0", ["S0"], []⟩] := by rfl
+
+example : keptTrios ["A", "B", "C"] [⟨"C", some "A", some "B"⟩, ⟨"D", some "A", some "B"⟩, ⟨"B", none, some "A"⟩] =
+    [⟨"A", "B", "C"⟩] := by rfl
+
+
+/-- **readlist_one_row_per_read**: `ReadList.write` emits exactly one row per read handed to the solver, in solver
+order, provided — as the run guarantees — the partition has one entry per read (`assert len(readset) == len(bipartition)`),
+no read is empty and the first position of every read has a component (`overall_components` covers all accessible positions). -/
+theorem readlist_one_row_per_read (i : Inst) (hlen : i.partition.length = i.reads.length)
+    (hpos : ∀ r ∈ i.reads, ∃ f c, r.positions.head? = some f ∧ alookup i.comps f = some c) :
+    (readListRows i).map (·.name) = i.reads.map (·.name) ∧ (readListRows i).length = i.reads.length := by
+  have key : ∀ (rs : List Read) (ps : List Nat), ps.length = rs.length →
+      (∀ r ∈ rs, ∃ f c, r.positions.head? = some f ∧ alookup i.comps f = some c) →
+      ((rs.zip ps).filterMap (fun rh => readRow i.comps rh.1 rh.2)).map (·.name) = rs.map (·.name) := by
+    intro rs
+    induction rs with
+    | nil => intro ps _ _; rfl
+    | cons r t ih =>
+      intro ps hl hp
+      cases ps with
+      | nil => simp at hl
+      | cons p ps' =>
+        obtain ⟨f, c, hf, hc⟩ := hp r (List.mem_cons_self ..)
+        have hne : r.positions ≠ [] := by intro e; rw [e] at hf; cases hf
+        obtain ⟨l, hlast⟩ : ∃ l, r.positions.getLast? = some l := by
+          cases hr : r.positions.getLast? with
+          | none => exact absurd (List.getLast?_eq_none_iff.mp hr) hne
+          | some l => exact ⟨l, rfl⟩
+        have hrow : readRow i.comps r p = some ⟨r.name, r.sourceId, r.sample, c + 1, p, r.positions.length, f + 1, l + 1⟩ := by
+          simp [readRow, hf, hlast, hc]
+        simp only [List.zip_cons_cons, List.filterMap_cons, hrow, List.map_cons]
+        rw [ih ps' (by simpa using hl) (fun r' hr' => hp r' (List.mem_cons_of_mem _ hr'))]
+  have h1 := key i.reads i.partition hlen hpos
+  refine ⟨h1, ?_⟩
+  have := congrArg List.length h1
+  simpa [readListRows] using this
+
+example : exInst.partition.length = exInst.reads.length := by decide
+
+
+/-! ### non-vacuity / witnesses of the file-level theorems -/
+
+def exFam : FamRun := ⟨exInst, ["child", "mother", "father"]⟩
+
+example : exFam.ReadsOfMembers := by
+  intro r hr
+  simp [exFam, exInst] at hr
+  rcases hr with rfl | rfl | rfl <;> simp [exFam]
+
+/-- two processed chromosomes around a deselected one, all three lists, paths that already held something: header
+once, then the lines of chr1 and chr3 — nothing of the old content survives -/
+example : (runF ⟨true, true, true, true⟩ ⟨false⟩ ⟨some ["old"], some ["#old", "stale"], some ["#old", "stale"]⟩
+    [⟨"chr1", true, [exFam], [⟨"child", 19, "A", ["C"], [0, 1], [1, 1]⟩]⟩, ⟨"chr2", false, [exFam], []⟩,
+     ⟨"chr3", true, [exFam], []⟩]).gt = some [gtHeader, "child\tchr1\t19\tA\tC\t0/1\t1/1"] := by rfl
+example : (runF ⟨true, true, true, true⟩ ⟨false⟩ ⟨some ["old"], none, some ["#old", "stale"]⟩
+    [⟨"chr1", true, [exFam], []⟩, ⟨"chr2", false, [exFam], []⟩, ⟨"chr3", true, [exFam], []⟩]).reco =
+    some [recHeader, "child chr1 31 41 0 1 0 0 7", "child chr1 31 41 0 1 0 0 7"] := by rfl
+/-- **F80 witness**: `--chromosome` names no chromosome of the VCF: the read list is reset to its header, the other two
+requested lists keep the stale rows (as coded) / are reset to their header (repaired) -/
+example : (fun r : FState => (r.read, r.gt, r.reco)) (runF ⟨true, true, true, true⟩ ⟨false⟩
+      ⟨some ["old"], some ["#old", "stale"], none⟩ [⟨"chr1", false, [exFam], []⟩]) =
+    (some [readHeader], some ["#old", "stale"], none) := by rfl
+example : (fun r : FState => (r.read, r.gt, r.reco)) (runF ⟨true, true, true, true⟩ ⟨true⟩
+      ⟨some ["old"], some ["#old", "stale"], none⟩ [⟨"chr1", false, [exFam], []⟩]) =
+    (some [readHeader], some [gtHeader], some [recHeader]) := by rfl
+/-- a read whose sample is not a member of the family being written would raise `KeyError` (no row): the hypothesis
+`ReadsOfMembers` of `files_cover_run` is needed -/
+example : readListRowsS (scAssign [] ["mother"] exInst.comps) exInst = [⟨"r3", 0, "mother", 51, 1, 2, 51, 61⟩] := by rfl
 
 end WhVerif.Props.C20
